@@ -5,6 +5,10 @@ from ..engines import totality as T
 
 
 def run(ctx):
+    # language-level slips in the modules the property is anchored in (engine Y)
+    from ..engines import gotchas as GY
+    GY.run(ctx, ('comb_spec_searcher', 'class_db', 'rule_db.base', 'rule_db.forest'))
+    ctx.floor("Y", 1)
     ctx.extra["explanation"] = (
         "static analysis (ast, no execution): provenance of every (start, ends, rule) triple that "
         "reaches a rule database (guarded start label, order-preserving unfiltered child labels, "
